@@ -130,7 +130,7 @@ def main(tier, seed):
     # ---- (2) file level
     wdir = os.path.join(bdir, "verif-work", "c15-%d" % os.getpid())
     os.makedirs(wdir, exist_ok=True)
-    nfiles = 12 if tier == "quick" else 1000
+    nfiles = 40 if tier == "quick" else 1000
     pos_hist = {"own": 0, "inherited": 0, "complex_part": 0}
     for k in range(nfiles):
         r = rng(seed, "c15/%d" % k)
